@@ -598,6 +598,20 @@ func c16Validate(c *Ctx, cases []c16Case, shards int, withTable bool, report fun
 			}
 			_, _ = rec.lex(small, 0)
 		}
+		// interning across everything else the process does: the table is global, the evaluator shares the process with the
+		// lexer. Sessions that define, call, redefine, delete, fail, panic, expand macros, evaluate strings, save and reset
+		// are run between two lexings of the small input: same objects again.
+		for _, h := range [][]string{
+			{"f = func(x) {x + 1}", "f(1)", "f = func(x) {x + 2}", "f(1)", "g = func(x) {f(x)}", "g(1)", "del(f)", "catch(g(1))"},
+			{"K = 1", "h = func() {K}", "h()", "del(K)", "K = 2", "h()", "func nm(a) {a}", "nm(1)", "func nm(a) {a + 1}", "nm(1)"},
+			{"r = func(n) {r(n + 1)}", "r(0)", "m = macro(x) {quote(unquote(x) + 1)}", "m(2)", `eval("alpha = 42 // note")`, "alpha", `unjson("[1, 2]")`, "1 +", "a b c )", "info"},
+			{"a = 1:200", "b = a + a", "x = 0; for i = 100 {x = x + i}", `s = "text"; s + s`, "save", "load", "del(a)", "del(b)", "reset = 1", "0.5 + 0.5 /* bc */"},
+		} {
+			_, _ = runHistory(h, RunOpt{})
+			_, _ = rec.lex(small, 0)
+			_, _ = runHistory(h, RunOpt{NoReg: true})
+			_, _ = rec.lex(small, 0)
+		}
 		bufs[shards-1] = rec.appendTable(bufs[shards-1])
 		counts[shards-1]++
 	}
